@@ -231,6 +231,9 @@ class MemoryFile(File):
   def seek(self, offset: int, whence: Literal[0, 1, 2] = 0) -> int:
     return self._buffer.seek(offset, whence)
 
+  def truncate(self) -> None:
+    self._buffer.truncate()
+
   def tell(self) -> int:
     return self._buffer.tell()
 
@@ -274,7 +277,7 @@ class MemoryFileSystem(FileSystem):
     file = self._locate(path)
     if isinstance(file, dict):
       raise IsADirectoryError(path)
-    if 'w' in mode and file is None:
+    if ('w' in mode or 'a' in mode) and file is None:
       parent_dir, name = self._parent_and_name(path)
       if isinstance(parent_dir, dict):
         buffer = io.BytesIO() if 'b' in mode else io.StringIO()
@@ -283,6 +286,13 @@ class MemoryFileSystem(FileSystem):
 
     if file is None:
       raise FileNotFoundError(path)
+    if 'w' in mode:
+      # Opening for write truncates the existing content.
+      file.seek(0)
+      file.truncate()
+    elif 'a' in mode:
+      # Opening for append positions the stream at the end.
+      file.seek(0, 2)
     return file
 
   def chmod(self, path: Union[str, os.PathLike[str]], mode: int) -> None:
